@@ -159,7 +159,7 @@ def parse_coq(out):
     return res
 
 
-PRELUDE = """From Coq Require Import ZArith QArith List Bool String.
+PRELUDE = """From Coq Require Import ZArith QArith Qabs List Bool String.
 From ESRV Require Import Model.Trapz.
 Import ListNotations.
 Open Scope Q_scope.
@@ -181,7 +181,7 @@ Definition outq (o : option (list Q)) : option (list (Z * Z)) :=
 def model_job_text(jid, job, results):
     """One Eval for a whole call sequence; the implementation's grids/masks are literals compared inside Coq."""
     tol = job["tol"]
-    lines = ['Eval vm_compute in ("J", %d%%Z,' % jid,
+    lines = ['Eval vm_compute in ("J"%%string, %d%%Z,' % jid,
              "  let p := @mkParams QFld %s %d%%nat in" % (qlit(unhex(job["delta"])), job["min_nz"]),
              "  let s0 := @cache_empty QFld in"]
     outs = []
@@ -196,11 +196,11 @@ def model_job_text(jid, job, results):
             zs = "[" + "; ".join(qlit(unhex(t)) for t in call["zs"]) + "]"
             lines.append("  let r%d := @get_pred_dl QFld p s%d %s %s in" % (k, k - 1, zs, coq_h2(call["fam"], [unhex(t) for t in call["params"]])))
             lines.append("  let s%d := fst r%d in" % (k, k))
-        ix = "None" if r["data_x"] is None else "Some [" + "; ".join(qlit(unhex(t)) for t in r["data_x"]) + "]"
+        ix = "None" if r["data_x"] is None else "(Some [" + "; ".join(qlit(unhex(t)) for t in r["data_x"]) + "])"
         if r["data_mask"] is None or r["data_mask"] == "ragged":
             im = "None"
         else:
-            im = "Some [" + "; ".join("%d%%nat" % t for t in r["data_mask"]) + "]"
+            im = "(Some [" + "; ".join("%d%%nat" % t for t in r["data_mask"]) + "])"
         val = "outq (snd r%d)" % k if (call["op"] == "pred" and not r.get("integrated")) else "@None (list (Z * Z))"
         lines.append("  let o%d := (oclose %s (data_x s%d) %s, oeqn (data_mask s%d) %s, %s) in" % (k, tol, k, ix, k, im, val))
         outs.append("o%d" % k)
@@ -286,14 +286,39 @@ def run_impl(ctx, jobs):
     return json.loads(out)
 
 
-def run_model(jobs, results, shard=40):
-    got = {}
-    for s0 in range(0, len(jobs), shard):
-        txt = PRELUDE + "\n".join(model_job_text(j, jobs[j], results[j]) for j in range(s0, min(len(jobs), s0 + shard)))
-        rc, out = esrv.coq_run(txt, timeout=1500)
+def run_model(jobs, results, shard=40, workers=6):
+    """Evaluate the Q model on every job (vm_compute); shards are balanced by estimated cost and run concurrently."""
+    from concurrent.futures import ThreadPoolExecutor
+
+    def cost(j):
+        c = 1
+        for call, r in zip(jobs[j]["calls"], results[j]):
+            g = len(r["data_x"] or [])
+            c += g * (len(call.get("zs", [])) + 20) * (1 if jobs[j]["tol"] == "0" else 6)
+        return c
+    order = sorted(range(len(jobs)), key=cost, reverse=True)
+    nsh = max(workers, (len(jobs) + shard - 1) // shard)
+    shards = [[] for _ in range(nsh)]
+    load = [0] * nsh
+    for j in order:
+        k = load.index(min(load))
+        shards[k].append(j)
+        load[k] += cost(j)
+    shards = [sh for sh in shards if sh]
+
+    def one(sh):
+        txt = PRELUDE + "\n".join(model_job_text(j, jobs[j], results[j]) for j in sh)
+        if os.environ.get("C19_DUMP"):
+            with open(os.environ["C19_DUMP"] + ".%d" % sh[0], "w") as f:
+                f.write(txt)
+        rc, out = esrv.coq_run(txt, timeout=2400)
         if rc != 0:
             raise RuntimeError("coq model evaluation failed: " + out[-1500:])
-        got.update(parse_coq(out))
+        return parse_coq(out)
+    got = {}
+    with ThreadPoolExecutor(max_workers=workers) as ex:
+        for d in ex.map(one, shards):
+            got.update(d)
     return got
 
 
@@ -385,7 +410,7 @@ def correspondence(ctx):
                 jobs.append({"tag": "dyadic/%d/%s" % (n, shape), "delta": hx(d), "min_nz": min_nz, "tol": "0",
                              "calls": [predcall(zs, fam, params_for(rng, fam))], "kind": "dyadic", "shape": shape, "n": n})
     # B. the constructor's delta_z, arbitrary floats: grid compared to 1e-12
-    ns = [1, 2, 3, 7, 19, 40] if quick else [1, 2, 3, 7, 19, 40, 99, 200]
+    ns = [1, 2, 3, 7, 19, 33] if quick else [1, 2, 3, 7, 19, 40, 99, 200]
     for n in ns:
         for shape in SHAPES:
             if n == 1 and shape != "sorted":
